@@ -36,7 +36,11 @@ def fresh_symbol(Sigma: Set[str], symbols: Iterable[str]) -> Symbol:
         symbol = Symbol(s)
         if symbol not in Sigma:
             return symbol
-    raise RuntimeError('Could not find a fresh symbol in {}'.format(symbols))
+    # all preferred symbols are in use: take the first unused one of ①, ②, ...
+    for code in itertools.count(0x2460):
+        symbol = Symbol(chr(code))
+        if symbol not in Sigma:
+            return symbol
 
 
 def pda_to_one_accepting_state_in_place(P: PDA) -> None:
@@ -113,8 +117,7 @@ def pda_to_push_pop_in_place(P: PDA) -> None:
     pda_to_one_accepting_state_in_place(P)
 
     # add intermediate states to enforce push/pop transitions
-    dummy = Symbol('∅')
-    assert dummy not in Gamma # TODO: implement a robust solution
+    dummy = fresh_symbol(Gamma, '∅')
     Gamma.add(dummy)
     delta1 = defaultdict(lambda: set([]))
     for (p, a, u), Q1 in delta.items():
